@@ -609,7 +609,7 @@ theorem inv2_step (c : Cfg α) (D : Nat → Nat → α) (hwf : WF c) (s : State 
     · exact hi
     · rename_i hb
       simp only [pvpBad, not_or, Decidable.not_not] at hb
-      exact inv2_putData c D hwf _ i d (pvpIdx_lt c i hb.2.1) (kind_pvp c hwf i hb.2.1) hb.2.2 hag
+      exact inv2_putData c D hwf _ i d (pvpIdx_lt c i hb.2.1) (kind_pvp c hwf i hb.2.1) hb.2.2.1 hag
         (inv1_markCanReg c s i hi1) (inv2_markCanReg c D s i hi)
   | writeSup j d =>
     simp only [step]
